@@ -786,9 +786,16 @@ class EdgeView(IDView):
         nodes = self._bi_id_dict
         max_edges = set()
 
+        def containing(e):
+            # IDs of the edges that contain every node of e; an empty edge
+            # is contained in every edge.
+            if not e:
+                return set(edges)
+            return reduce(lambda x, y: x & y, (nodes[n] for n in e))
+
         if strict:
             for i, e in edges.items():
-                if reduce(lambda x, y: x & y, (nodes[n] for n in e)) == {i}:
+                if containing(e) == {i}:
                     max_edges.add(i)
         else:
             # This data structure so that the algorithm can handle multi-edges
@@ -800,9 +807,7 @@ class EdgeView(IDView):
                 # If a multi-edge has already been added to the set of
                 # maximal edges, we don't need to check.
                 if i not in max_edges:
-                    if reduce(lambda x, y: x & y, (nodes[n] for n in e)) == set(
-                        dups[frozenset(e)]
-                    ):
+                    if containing(e) == set(dups[frozenset(e)]):
                         max_edges.update(dups[frozenset(e)])
 
         return self.from_view(self, bunch=max_edges)
